@@ -168,7 +168,18 @@ def _run(ctx: C.Ctx):
         try:
             bobj = models.make_basis(bk, nm)
             model = SSPOR(basis=bobj, optimizer=opt).fit(X.copy(), quiet=True, seed=rng.randint(0, 99))
-            if rng.random() < 0.3:
+            r_ = rng.random()
+            if r_ > 0.75 and bk != "identity" or (r_ > 0.75 and nm is not None):
+                # the basis is refitted OUTSIDE the model on other data of the same shape, then the model is told to re-rank on the
+                # fitted basis (prefit_basis=True): the ranking is that of the basis matrix as it is now
+                X2 = np.array([[rng.randint(-6, 6) for _ in range(nf)] for _ in range(ne)], dtype=float)
+                try:
+                    bobj.fit(X2.copy())
+                    model.fit(X2.copy(), quiet=True, prefit_basis=True, seed=rng.randint(0, 99))
+                    ctx.count("sspor:basis_refitted_outside_then_prefit")
+                except ValueError:
+                    pass
+            elif r_ < 0.3:
                 # one basis object shared by several models (one model per fold / per sensor budget): a later model trained on other
                 # data of the same shape must not reach into this model's own basis matrix
                 X2 = np.array([[rng.randint(-6, 6) for _ in range(nf)] for _ in range(ne)], dtype=float)
